@@ -36,13 +36,14 @@ def ref_wrap(cs, columns):
     return lines
 
 
-def judge(value, columns):
+def _judge_once(value, columns, got=None):
     from curtsies.formatstring import linesplit
     cs = cells(value)
-    try:
-        got = linesplit(value, columns)
-    except Exception as e:
-        return f"raised {type(e).__name__}: {e}"
+    if got is None:
+        try:
+            got = linesplit(value, columns)
+        except Exception as e:
+            return f"raised {type(e).__name__}: {e}"
     exp = ref_wrap(cs, columns)
     if len(got) != len(exp):
         return f"{len(got)} lines {[l.s for l in got]}, the greedy wrap has {len(exp)}"
@@ -71,6 +72,27 @@ def judge(value, columns):
             return f"line {gl.s!r} has extra characters (leading/trailing whitespace?)"
     return ""
 
+
+
+def judge(value, columns):
+    """the wrap judged against the statement - and judged AGAIN on a second call after the caller edited the first result (the list and
+    the lines are the caller's: appending, reversing, deleting must not change what the next linesplit of the same text returns)"""
+    from curtsies.formatstring import linesplit
+    d = _judge_once(value, columns)
+    if d:
+        return d
+    try:
+        first = linesplit(value, columns)
+        if isinstance(first, list):
+            first.append(fmtstr(">>> edited by the caller"))
+            first.reverse()
+            if len(first) > 1:
+                del first[0]
+        again = linesplit(value, columns)
+    except Exception as e:      # noqa: BLE001
+        return f"second call raised {type(e).__name__}: {e}"
+    d = _judge_once(value, columns, got=again)
+    return ("second linesplit of the same text, after the caller edited the first result: " + d) if d else ""
 
 def build(runs):
     return FmtStr(*[Chunk(t, dict(a)) for t, a in runs])
